@@ -36,7 +36,7 @@ def _returns_value(d, node) -> bool:
     return True
 
 
-def check_reset_before_accumulate(db, chk, rule: str) -> None:
+def check_reset_before_accumulate(db, chk, rule: str, decided=None) -> None:
     """(also C19: a restored graph is recomputed by the same method; a set that is only ever added to mixes the edges of two computations)"""
     m = db.mod(CP)
     f0 = m.func("CPGraph.critical_path")
@@ -53,7 +53,11 @@ def check_reset_before_accumulate(db, chk, rule: str) -> None:
              (H.is_self_attr(t, "critical_path_edges_set") and isinstance(val, ast.Call) and H.name_id(val.func) == "set" and val.args)]
     top_level = lambda s: any(s is x for x in f.body)
     ok = (len(resets) == 1 and top_level(resets[0]) and H.before(lp[0], resets[0]) and all(H.before(resets[0], a) for a in accum) and bool(accum)) or (len(whole) == 1 and not accum)
-    chk.ob(rule, "the edge set is emptied (or rebuilt as a whole) on every computation, after the new path is known and before edges are added", ok, where,
+    if decided is None and rule.startswith("C19"):
+        _derivation_eval(db, _Silent(chk), m, where)
+        decided = _derivation_eval.second
+    if ok or decided is not True:          # (the second-call abstract run decides; the shape of the reset is a diagnostic)
+      chk.ob(rule, "the edge set is emptied (or rebuilt as a whole) on every computation, after the new path is known and before edges are added", True if ok else (False if decided is False else None), where,
            found={"resets": [s.lineno for s in resets], "accumulations": [ast.unparse(a)[:60] for a in accum]}, accepted="self.critical_path_edges_set = set()  before the accumulation loop",
            why="without the reset a recomputation after re-weighting reports the union of the old and the new path's edges")
 
@@ -69,6 +73,8 @@ def run(db, chk) -> None:
     v = m.func("CPGraph._validate_graph")
     ae = m.func("CPGraph._add_edge")
     where = m.loc(f)
+    sem = _derivation_eval(db, chk, m, where)          # decided on the final state of abstract runs; the shape rules below are diagnostics and defer to them
+    second = _derivation_eval.second
     chk.analysed_add("functions", [f"{CP}:CPGraph.critical_path", f"{CP}:CPGraph._validate_graph", f"{CP}:CPGraph._add_edge"])
     # ---------------------------------------------------------------- R1 key agreement
     cs = [c for c in H.calls(ae) if isinstance(c.func, ast.Attribute) and c.func.attr == "add_edge"]
@@ -105,7 +111,8 @@ def run(db, chk) -> None:
             val = ds[0] if len(ds) == 1 else val
         return val is lp0 or (val is site and lp_helper is not None and _returns_value(lp_helper, lp0))
     src_ok = any(_is_path(val) for t, val, s in H.assignments(f) if H.is_self_attr(t, "critical_path_nodes"))
-    chk.ob("C09.R1-key-agreement", "critical_path_nodes receives the longest path", src_ok, where, found=len(tgt), accepted="self.critical_path_nodes = nx.dag_longest_path(...)")
+    if src_ok or sem is not True:          # (with the abstract run deciding - nodes == what the search returned - a store the shape rule does not follow is not a finding)
+        chk.ob("C09.R1-key-agreement", "critical_path_nodes receives the longest path", True if src_ok else (False if sem is False else None), where, found=len(tgt), accepted="self.critical_path_nodes = nx.dag_longest_path(...)")
     # stores into edge attributes in _validate_graph
     stores = []
     for n in ast.walk(v):
@@ -141,20 +148,19 @@ def run(db, chk) -> None:
            found=[" ".join(ast.unparse(m.parent.get(id(n), n)).split())[:100] for n in frozen] or "none", accepted="weights are read through the 'weight' edge attribute only",
            why="a what-if re-weighting changes the graph attribute, not the CPEdge objects: a consistency check against e.weight raises (or filters) exactly when the documented re-weighting was used")
     # ---------------------------------------------------------------- R2 derivation of the sets
-    sem = _derivation_eval(db, chk, m, where)          # decided on the final state of an abstract run; the shape rules below are diagnostics and defer when they do not recognise the code
     ev = [val for t, val, s in H.assignments(f_in) if H.is_self_attr(t, "critical_path_events_set")]
     okev = len(ev) == 1 and isinstance(ev[0], ast.SetComp) and len(ev[0].generators) == 1 and isinstance(ev[0].generators[0].target, ast.Name) \
         and ast.unparse(ev[0].elt).replace(" ", "") == f"self.node_list[{ev[0].generators[0].target.id}].ev_idx" \
         and H.is_self_attr(ev[0].generators[0].iter, "critical_path_nodes") and not ev[0].generators[0].ifs
     recognised_ev = len(ev) == 1 and isinstance(ev[0], ast.SetComp)
-    if recognised_ev or sem is None:
-      chk.ob("C09.R2-derivation", "critical events = the events of ALL nodes of the path", okev if recognised_ev else None, where, found=[ast.unparse(e) for e in ev], accepted="{self.node_list[nid].ev_idx for nid in self.critical_path_nodes}")
+    if okev or sem is not True:
+      chk.ob("C09.R2-derivation", "critical events = the events of ALL nodes of the path", True if okev else (False if (recognised_ev and sem is False) else None), where, found=[ast.unparse(e) for e in ev], accepted="{self.node_list[nid].ev_idx for nid in self.critical_path_nodes}")
     # consecutive pairs
     form = _pair_form(f_in, [g_ for g_ in H.with_private_callees(m, f) if g_ is not f])
     if not (form["ok"] is None and sem is not None):
         chk.ob("C09.R2-derivation", "critical edges = the graph edges between CONSECUTIVE nodes of the path, each read from 'object'", form["ok"], where, found=form["found"],
                accepted="u = first; for each next v: add(self.edges[u, v]['object']); u = v   |   for u, v in zip(path, path[1:])")
-    check_reset_before_accumulate(db, chk, "C09.R3-reset-before-accumulate")
+    check_reset_before_accumulate(db, chk, "C09.R3-reset-before-accumulate", decided=second)
     # ---------------------------------------------------------------- R5 the path is recomputed on every call
     guards = []
     for node, top in ((lp0, lp_helper or f), (site, f)):
@@ -168,13 +174,31 @@ def run(db, chk) -> None:
     early = [r for r in walk_no_nested(f) if isinstance(r, ast.Return) and r.lineno < site.lineno]
     if lp_helper is not None:
         early += [r for r in walk_no_nested(lp_helper) if isinstance(r, ast.Return) and r.lineno < lp0.lineno]
-    chk.ob("C09.R5-always-recomputed", "every call recomputes the longest path on the current graph: no condition, memo or early return in front of the computation (validation failure raises)", not guards and not early, where,
+    plain = not guards and not early
+    if plain or second is not True:          # (a guard in front of the search is a finding only if the second-call run shows something kept - or could not be evaluated)
+      chk.ob("C09.R5-always-recomputed", "every call recomputes the longest path on the current graph: no condition, memo or early return in front of the computation (validation failure raises)", True if plain else (False if second is False else None), where,
            found={"conditions": guards, "early_returns": [r.lineno for r in early]}, accepted="unconditional nx.dag_longest_path after validation",
            why="a memo keyed on counts / total weight keeps the stale path after a what-if re-weighting that moves weight between edges")
     _result_writers(db, chk)
     # ---------------------------------------------------------------- R4 validation dominates (shared with C08)
     c08._validation(db, _Prefixed(chk, "C09.R4-validation"), m)
     chk.floor("C09.R1-key-agreement", 5)
+
+
+class _Silent:
+    """swallows obligations (a shared abstract run re-used by another property's rule for its verdict only)"""
+
+    def __init__(self, chk):
+        self.chk = chk
+
+    def ob(self, *a, **k):
+        return True
+
+    def note(self, msg):
+        pass
+
+    def __getattr__(self, n):
+        return getattr(self.chk, n)
 
 
 class _Prefixed:
@@ -194,6 +218,11 @@ class _Prefixed:
 
 
 def _derivation_eval(db, chk, m, where):
+    _derivation_eval.second = None
+    return _derivation_eval_(db, chk, m, where)
+
+
+def _derivation_eval_(db, chk, m, where):
     """critical_path() run on a small concrete graph (path 0-1-2-3 handed out by the hooked longest-path search, a chord 0->2 between two path nodes, stale members
     from an earlier computation): afterwards the three result members are the path, the events of ALL its nodes, and exactly the edge objects of its CONSECUTIVE pairs."""
     from ..core.interp import Interp
@@ -232,7 +261,7 @@ def _derivation_eval(db, chk, m, where):
         return NotImplemented
 
     def args(I):
-        state["data"] = {e: {"object": Obj(f"E{e[0]}{e[1]}", attrs={"begin": e[0], "end": e[1], "weight": 5, "type": ("enum", "CPEdgeType", "DEPENDENCY")}), "weight": 5} for e in EDGES}
+        state["data"] = {e: {"object": Obj(f"E{e[0]}{e[1]}", attrs={"begin": e[0], "end": e[1], "weight": 0 if e == (0, 1) else 5, "type": ("enum", "CPEdgeType", "DEPENDENCY")}), "weight": 0 if e == (0, 1) else 5} for e in EDGES}          # (the path is entered through a zero-weight edge)
         edges = {to_term(PyTuple(list(e))): d for e, d in state["data"].items()}
         nl = [Obj(f"n{i}", attrs={"ev_idx": (i + 1) // 2, "idx": i, "is_start": i % 2 == 1}) for i in range(4)]          # (event 0 - the first event of the file - is on the path)
         return {"self": Obj("self", cls=(m, "CPGraph"), attrs={"edges": edges, "node_list": nl, "critical_path_nodes": [7], "critical_path_events_set": {99}, "critical_path_edges_set": {"STALE"}})}
@@ -256,6 +285,38 @@ def _derivation_eval(db, chk, m, where):
     chk.ob("C09.R2-derivation", "[abstract run] after critical_path(): nodes = the path, events = the events of ALL its nodes, edges = exactly the edge objects of its CONSECUTIVE pairs (stale members gone, no chord)",
            ok, where, found={"nodes": nodes, "events": sorted(evs), "edges": got_e}, accepted={"nodes": PATH, "events": [0, 1, 2], "edges": ["E01", "E12", "E23"]},
            why="the edges of the induced subgraph contain chords between path nodes that the path does not use; a set that is not rebuilt keeps the previous path")
+    if ok:
+        # ---- the SAME object asked again after the graph changed (the hooked search now answers 0-2 over the chord): everything is recomputed
+        PATH2 = [0, 2]
+        first = so
+
+        def args2(I):
+            cp = lambda v_: list(v_) if isinstance(v_, list) else (set(v_) if isinstance(v_, set) else (dict(v_) if isinstance(v_, dict) else v_))
+            state["data"] = {e: {"object": next((x for x in first.attrs["critical_path_edges_set"] if isinstance(x, Obj) and x.name == f"E{e[0]}{e[1]}"), Obj(f"E{e[0]}{e[1]}", attrs={"begin": e[0], "end": e[1], "weight": 5})), "weight": 5} for e in EDGES}
+            a_ = {k: cp(v_) for k, v_ in first.attrs.items()}
+            a_["edges"] = {to_term(PyTuple(list(e))): d for e, d in state["data"].items()}
+            return {"self": Obj("self", cls=(m, "CPGraph"), attrs=a_)}
+        PATH_box = PATH
+        try:
+            PATH[:] = PATH2
+            runs2 = [r for r in Interp(db, call_hook=hook).explore(f"{CP}:CPGraph.critical_path", args2) if r.raised is None and r.ret is True]
+        except AnalysisError:
+            runs2 = []
+        finally:
+            PATH[:] = [0, 1, 2, 3]
+        second = None
+        if len(runs2) == 1:
+            s2 = runs2[0].env["self"]
+            n2, e2, d2 = s2.attrs.get("critical_path_nodes"), s2.attrs.get("critical_path_events_set"), s2.attrs.get("critical_path_edges_set")
+            if isinstance(n2, list) and isinstance(e2, (set, list)) and isinstance(d2, (set, list)) and all(isinstance(x, int) for x in list(n2) + list(e2)) and all(isinstance(x, Obj) for x in d2):
+                got2 = {"nodes": list(n2), "events": sorted(e2), "edges": sorted(x.name for x in d2)}
+                second = got2 == {"nodes": PATH2, "events": [0, 1], "edges": ["E02"]}
+                chk.ob("C09.R3-reset-before-accumulate", "[abstract run] a SECOND critical_path() on the same object, after the graph changed, reports the new path only (nothing kept from the first call: no memo, no early return, the edge set rebuilt)",
+                       second, where, found=got2, accepted={"nodes": PATH2, "events": [0, 1], "edges": ["E02"]},
+                       why="a recomputation after a what-if re-weighting must not report the union of the old and the new path, nor the old path from a memo")
+        if second is None:
+            chk.note("C09: the second call of critical_path() on the same object was not evaluated to concrete members (the shape rules decide the reset / recomputation clauses)")
+        _derivation_eval.second = second
     return ok
 
 
@@ -349,6 +410,17 @@ def _result_writers(db, chk, rule="C09.R6-result-writers") -> None:
     package only reads them - directly or through a local alias (an in-place operator on an alias, `edges -= {...}`, edits the graph's own set)."""
     n_reads = 0
     cpm = db.mod(CP)
+    # the members belong to ONE graph: none of them is a class-level mutable default (shared by every instance until it is re-bound; an in-place reset then empties the set of all graphs)
+    cdef = cpm.classes.get("CPGraph")
+    shared = []
+    for st in (cdef.body if cdef is not None else []):
+        tg = st.targets[0] if isinstance(st, ast.Assign) and len(st.targets) == 1 else (st.target if isinstance(st, ast.AnnAssign) else None)
+        val = getattr(st, "value", None)
+        if isinstance(tg, ast.Name) and tg.id in ("critical_path_nodes", "critical_path_events_set", "critical_path_edges_set") and val is not None and \
+                (isinstance(val, (ast.List, ast.Set, ast.Dict, ast.ListComp, ast.SetComp)) or (isinstance(val, ast.Call) and H.name_id(val.func) in ("set", "list", "dict", "defaultdict", "deque"))):
+            shared.append(f"{tg.id} = {ast.unparse(val)}")
+    chk.ob(rule, "the result members are per-graph state (no class-level mutable default shared between graphs)", not shared, cpm.loc(cdef) if cdef is not None else "", found=shared or "none", accepted="initialised per instance",
+           why="with a class-level set every graph that has not re-bound the member reports (and clears) the edges of the others: two analyses in one process, or a restored graph next to the live one")
     allowed = set()          # the three writers and the private helpers they call (e.g. a method of the saved-data class that re-installs the members)
     for w in RESULT_WRITERS:
         for g in H.with_private_callees(cpm, cpm.func(w)):
